@@ -318,13 +318,13 @@ def run(tier, seed):
     # ------------------------------------------------------------ direct oracle: covariance over the whole catalogue
     if tier == "quick":
         jobs = [(2000 + seed * 31, "p4", "unyt", lists, None), (2001 + seed * 31, "ord", "unyt", lists, None),
-                (2002 + seed * 31, "p4", "bare", lists, None), (2003 + seed * 31, "ord2", "unyt", lists, None)]
+                (2002 + seed * 31, "p4", "bare", lists, None), (2003 + seed * 31, "mix", "unyt", lists, None)]
     else:
-        modes = ["p4", "ord", "p4", "ord2"]
+        modes = ["p4", "ord", "mix", "ord2"]
         jobs = [(3000 + seed * 101 + i, modes[i % 4], "bare" if i % 6 == 5 else "unyt", lists, None) for i in range(24)]
     if suspects:
         # widened search on the functions a broken obligation / disagreement points at
-        jobs += [(5000 + seed * 7 + i, m, "unyt", lists, sorted(suspects)) for i in range(4) for m in ("p4", "ord")]
+        jobs += [(5000 + seed * 7 + i, m, om, lists, sorted(suspects)) for i in range(3) for m, om in (("p4", "unyt"), ("mix", "unyt"), ("p4", "bare"))]
     with multiprocessing.get_context("fork").Pool(4) as pool:
         results = pool.map(cov_pass, jobs)
     for res in results:
